@@ -77,7 +77,12 @@ func scenario(c cfg) *explore.Scenario {
 			}
 			started[a.Name] = true
 			lab.StartSend(a, "hello-from-"+a.Name)
-			lab.FairSuffix(10*time.Second, func() bool { return a.SendReturned > 0 && len(lab.Flight) == 0 })
+			horizon := 10 * time.Second
+			if !accepts(c.pred, "b") {
+				// the handshake is refused and retried forever: two retries are state enough
+				horizon = 600 * time.Millisecond
+			}
+			lab.FairSuffix(horizon, func() bool { return a.SendReturned > 0 && len(lab.Flight) == 0 })
 			_ = b
 		}
 		for step := 0; step < c.depth; step++ {
@@ -178,6 +183,15 @@ func scenario(c cfg) *explore.Scenario {
 				add("data-from-rejected-key", fmt.Sprintf("X delivered %q from key %q", n.Received[i], k))
 			}
 		}
+		// every node is honest and payloads name their sender, so the key that encrypted a
+		// delivered payload is known independently of what the channel reports
+		for _, pl := range n.Received {
+			for suffix, k := range map[string]string{"-from-B": "b", "-from-E": "c"} {
+				if strings.HasSuffix(pl, suffix) && !accepts(c.pred, k) {
+					add("data-from-rejected-key", fmt.Sprintf("X delivered %q, which was sent by key %q", pl, k))
+				}
+			}
+		}
 		for _, k := range n.DataSentTo {
 			if !accepts(c.pred, k) {
 				add("encrypted-to-rejected-key", fmt.Sprintf("X emitted application ciphertext while its remote key was %q", k))
@@ -217,7 +231,7 @@ func main() {
 			scs = append(scs, scenario(cfg{pred: pred, depth: depth, db: db, seed: seed}))
 		}
 	}
-	for _, pred := range []string{"all", "only-b"} {
+	for _, pred := range []string{"all", "only-b", "none", "only-e"} {
 		for _, pre := range []string{"x-dials-b", "b-dials-x"} {
 			scs = append(scs, scenario(cfg{pred: pred, depth: depth, db: db, seed: 1, pre: pre}))
 		}
